@@ -155,6 +155,7 @@ class Scripted:
         self.predict_calls = []   # (batched?, context, actions) as received
         self.answers = []         # what was returned (object), or the exception
         self.learn_calls = []     # (batched?, context, action, reward, probability, kwargs)
+        self.score_calls = []     # (batched?, context, actions, action)
 
     # ---- one row
     def _row(self, context, actions):
@@ -250,6 +251,22 @@ class Scripted:
         if self.kw:
             cols = cols + [kwcol]
         return cols if self.wrap is list else tuple(cols)
+
+    def score(self, context, actions, action):
+        """the probability the policy gives `action`: the stated p for the action it names, 0.0 for any other;
+        a batch is answered with one score per row; a learner that cannot handle batches raises"""
+        batched = is_batch(context) or is_batch(actions) or is_batch(action)
+        self.score_calls.append((batched, context, actions, action))
+        if not batched:
+            row = self._row(context, actions)
+            return dec(row["p"]) if action == actions[row["pick"]] else 0.0
+        if self.layout == "single":
+            raise NotBatchable("this learner cannot score batches")
+        out = []
+        for c, A, x in zip(context, actions, action):
+            row = self._row(c, A)
+            out.append(dec(row["p"]) if x == A[row["pick"]] else 0.0)
+        return out if self.wrap is list else tuple(out)
 
     def learn(self, context, action, reward, probability, **kwargs):
         batched = is_batch(context) or is_batch(action) or is_batch(reward)
